@@ -467,6 +467,8 @@ def rdm(psi, *sites):
             axes = ((ii, ii + 1), (0, 1)) if psi.nr_phys == 1 else ((ii, ii + 1, ii + 3), (0, 1, 3))
             FL = tensordot(FL, An, axes=axes)
     rho = tensordot(FL, FR, axes=((ii, ii + 1), (1, 0)))
+    if psi.factor != 1:  # the norm of psi kept outside of its tensors
+        rho = rho * (psi.factor ** 2)
 
     for ii, st in enumerate(sites):
         nd = sum(st > i for i in sites[ii+1:])
